@@ -44,6 +44,7 @@ GATES = {
             "life_no_verify_in_drop_clone", "life_make_ref", "verdict_live_clones", "verdict_wrong_thread",
             "verdict_lines", "verdict_errors_forwarded", "out_default_body"],
     "C14": ["build_rejected_mixed_mode", "build_rejected_empty_stub", "built", "out_return"],
+    "C11": [],
     "C18": ["meta_perm", "meta_perm_changed_order", "meta_route", "meta_two_mocks", "meta_generic_swap",
             "meta_base_calls"],
 }
